@@ -27,8 +27,11 @@ func verifScopeUnserializeP(s *schema.ScopeSchema, data any) (any, error) { retu
 
 var verifCompatFails bool
 
+// verifCompatProp: when set, only the compatibility check of this property (one field of one stage) fails.
+var verifCompatProp *schema.PropertySchema
+
 func verifCompat(p *schema.PropertySchema, t any) error {
-	if verifCompatFails {
+	if verifCompatFails && (verifCompatProp == nil || verifCompatProp == p) {
 		return &verifrt.Err{Msg: "incompatible type"}
 	}
 	return nil
@@ -242,8 +245,19 @@ func VerifH_C10_reference_edges() {
 		}
 		delete(t.steps[1].fields, "input")
 	}
+	// the value given for the chosen field may be of a type its schema does not admit (whether the
+	// field is required or optional): the compatibility check of exactly that field then fails
 	verifCompatFails = verifrt.Choice("compat", 2) == 1
-	ew, err := verifExecutor(run).Prepare(verifWorkflow(t), nil)
+	ex := verifExecutor(run)
+	verifCompatProp = nil
+	for _, st := range ex.stepRegistry.(*vRegistry).p.(*vProvider).life.Stages {
+		if ps, ok := st.InputSchema[field]; ok && st.ID == stage {
+			verifCompatProp = ps
+		}
+	}
+	verifrt.Assert(verifCompatProp != nil, "harness: the chosen field is declared by its stage")
+	ew, err := ex.Prepare(verifWorkflow(t), nil)
+	verifCompatProp = nil
 	wellFormed := tg.valid && !missing && !verifCompatFails
 	if !wellFormed {
 		verifrt.Reach("rejected")
@@ -407,4 +421,61 @@ func VerifH_C10_multi_reference() {
 	_, hasA := deps["steps.a.outputs.success"]
 	_, hasC := deps["steps.c.outputs.success"]
 	verifrt.Assert(hasA && hasC, "every reference of a multi-reference expression has its dependency")
+}
+
+// C11 (after YAML decoding): whatever shape a step definition has - not a map, a 'kind' that is not a
+// string or names no provider, keys that are not strings - Prepare answers with a workflow or an error,
+// never with a crash; only the well-formed shape is accepted.
+func VerifH_C11_prepare_step_shapes() {
+	run := newRun()
+	def := func() map[any]any {
+		return map[any]any{"plugin": map[any]any{"src": "image", "deployment_type": "builtin"}, "input": verifStepInput(vx("input"))}
+	}
+	var stepData any
+	valid := false
+	switch verifrt.Choice("step-shape", 6) {
+	case 0:
+		stepData = def()
+		valid = true
+	case 1:
+		stepData = "just text"
+	case 2:
+		stepData = []any{def()}
+	case 3:
+		stepData = nil
+	case 4:
+		m := def()
+		switch verifrt.Choice("kind", 7) {
+		case 0:
+			m["kind"] = "plugin"
+			valid = true
+		case 1:
+			m["kind"] = "no-such-kind"
+		case 2:
+			m["kind"] = int64(3)
+		case 3:
+			m["kind"] = nil
+		case 4:
+			m["kind"] = []any{"plugin"}
+		case 5:
+			m["kind"] = map[any]any{"plugin": true}
+		case 6:
+			m["kind"] = true
+		}
+		stepData = m
+	case 5:
+		m := def()
+		m[int64(1)] = "x" // a key that is not a string
+		stepData = m
+	}
+	wf := &Workflow{Input: map[any]any{}, Steps: map[string]any{"a": stepData},
+		Outputs: map[string]any{"success": map[any]any{"r": vx("input")}}}
+	_, err := verifExecutor(run).Prepare(wf, nil)
+	if valid {
+		verifrt.Reach("accepted")
+		verifrt.Assert(err == nil, "a well-formed step definition is accepted")
+	} else {
+		verifrt.Reach("rejected")
+		verifrt.Assert(err != nil, "a malformed step definition is rejected with an error")
+	}
 }
